@@ -21,6 +21,8 @@ THEOREMS = [
     "BeyondVerif.C10.listen_event_sharp",
     "BeyondVerif.C10.listenU_times",
     "BeyondVerif.C10.listen_exact",
+    "BeyondVerif.C10.simultaneous_events_in_listener_order",
+    "BeyondVerif.C10.listen_block_order",
     "BeyondVerif.C10.stream_eq_blocks",
     "BeyondVerif.C10.reuse_clean",
     "BeyondVerif.C10.stream_chronological",
@@ -30,6 +32,12 @@ THEOREMS = [
     "BeyondVerif.C10.guards_spec",
     "BeyondVerif.C10.max_only_at_maximum",
     "BeyondVerif.C10.visibility_stream_spec",
+    "BeyondVerif.C10.frameless_reads_own_frame",
+    "BeyondVerif.C10.events_iterator_spec",
+    "BeyondVerif.C10.find_event_spec",
+    "BeyondVerif.C10.light_value_pm_one",
+    "BeyondVerif.C10.umbra_inside_penumbra",
+    "BeyondVerif.C10.light_geometry",
     "BeyondVerif.C10.passes_spec",
     "BeyondVerif.C10.stationKinds_spec",
     "BeyondVerif.Listen.bisect2_eq_wf",
@@ -38,49 +46,72 @@ THEOREMS = [
     "BeyondVerif.C10W.apside_label_both_directions",
     "BeyondVerif.C10W.light_label_backward",
     "BeyondVerif.C10W.exact_zero_at_sample_two_events",
+    "BeyondVerif.C10W.visibility_frameless_no_spurious",
+    "BeyondVerif.C10W.visibility_frameless_genuine",
+    "BeyondVerif.C10W.visibility_frameless_node_and_los",
+    "BeyondVerif.C10W.penumbra_half_angle_witness",
 ]
 LEVEL_TEXT = ("Lean theorems over a model of Speaker.listen/_bisect/Listener.check/clear, the interleaving of iter and the filter of "
-              "TopocentricFrame.visibility, for an arbitrary watched quantity f : Int -> Int, arbitrary guards, listener lists and sample sequences "
+              "TopocentricFrame.visibility (listeners with a frame of their own and listeners created with frame=None alike), for an arbitrary watched "
+              "quantity f : Int -> Int, arbitrary guards, listener lists and sample sequences "
               "(dates in integer microseconds, timedelta/2 as round-half-even): an event is emitted between two samples iff the listener's guard holds "
               "and the sign of f differs (exactly one per listener), it lies in (t_k, t_k+1] (resp. [t_k+1, t_k) backward), f changes sign within 1 us of it, "
-              "the stream is ordered in the direction of the iteration (forward and backward), listener history is irrelevant; _bisect terminates "
+              "the stream is ordered in the direction of the iteration (forward and backward), events of one step with the same date keep the order of the "
+              "listeners list (stable sort, both directions), listener history is irrelevant; events_iterator is the label filter of the stream and find_event "
+              "returns the item preceded by exactly `offset` items of that label, raising RuntimeError iff there are too few (or offset < 0); _bisect terminates "
               "(well-founded definition) in <= log2 passes. Watched quantity, guard, label and event class of every listener class are re-translated from "
               "the Python AST on each run and the label/guard/MAX/visibility theorems re-proved against them (labels match the crossing direction in time "
-              "in both directions of iteration). Exact differential correspondence: the REAL Speaker, listener classes, AnalyticalPropagator.iter, "
+              "in both directions of iteration). LightListener.__call__ after its geometric inputs is translated from the source by py2lean (Generated/LightSrc) and "
+              "proved over the reals to be +-1 valued, umbra-inside-penumbra, and equal to the two-cone predicate in the distance to the shadow axis (light_geometry; "
+              "both cones with sin(alpha) = (R_sun - R_body)/d — the open penumbra finding has a kernel-checked counter-witness on these formulas). "
+              "Exact differential correspondence: the REAL Speaker, listener classes, AnalyticalPropagator.iter, "
               "Ephem.iter and TopocentricFrame.visibility driven through stub states with integer polynomial components vs the compiled model.")
-LEVEL_NOTE = ("agreement with closed-form Keplerian times, the conical shadow geometry and the zero elevation(-rate) at AOS/LOS/MAX is numerical: "
+LEVEL_NOTE = ("agreement with closed-form Keplerian times, of the event dates with an independent apparent-disc shadow computation and the zero elevation(-rate) at AOS/LOS/MAX is numerical: "
               "oracle sweep on the real API only; labels of the derivative-based listeners (Node, StationSignal, Terminator) are tied to the crossing "
-              "direction by the oracle only; frame-less listeners (frame=None) inside visibility are outside the model (open finding "
-              "C10-visibility-prev-frame-mutated, oracle); model hand-written, tied by exact correspondence and by the regenerated listener tables")
+              "direction by the oracle only; model hand-written, tied by exact correspondence and by the regenerated listener tables")
 TECHNIQUE = ("Lean 4 proofs (functional induction on the bisection loop, induction over sample sequences and listener lists) about an executable "
              "model; listener tables translated from the source AST; exact model/implementation correspondence through a stub propagator; oracle on real orbits")
 TRUSTED = [
     "harness/props/C10.py translate_listeners: Python AST of listeners.py (`__call__`, `check`, `info`, `event` class and its bases of each listener class, `stations_listeners`) -> Generated/ListenSrc.lean",
     "correspondence harness: stub orbit/station/propagator/ephemeris classes (subclasses of the real AnalyticalPropagator, Ephem, LightListener, TerminatorListener; the real "
     "TopocentricFrame.visibility called on a stub station) whose spherical components are integer polynomials of the date; exact comparison of (date in us, listener index, label) streams",
+    "harness/props/C10.py translate_light (+ harness/py2lean.py Tr.expr): LightListener.__call__ from `alpha_umb = …` on -> Generated/LightSrc{F,R}.lean; the seven assignments before it "
+    "(Sun position, frame change, norms) are checked textually against LIGHT_PREAMBLE and replicated by light_inputs",
     "CPython datetime: `timedelta / 2` rounds half to even on microseconds; `Date + timedelta` and `Date - Date` are exact on the microsecond grid within one day of the epoch used (checked by the correspondence itself)",
 ]
 ASSUMPTIONS = [
     "the model Model/Listen.lean is hand-written; it is tied to listeners.py / base.py / ephem.py / stations.py by the exact correspondence run and, for the per-class quantity/guard/label/event class, by AST translation",
     "dates are integer microseconds: the float representation of Date (day + seconds) is assumed exact on that grid (true within the magnitudes exercised; the oracle checks real orbits with a 5 us window)",
-    "the watched quantity is a deterministic function of the date and of the listener's own frame (true of every listener class given an explicit frame; the product f(begin)*f(mid) is assumed not to underflow)",
+    "the watched quantity is a deterministic function of the date and of the frame the listener reads the state in: its own frame, or (frame=None) the frame the propagator yields its states in — "
+    "no state object is re-framed while it is `listener.prev` (true of Speaker.listen/_bisect and, since d3db55e, of TopocentricFrame.visibility; the correspondence stub states carry a settable "
+    "`frame` attribute, so an in-place re-framing shows up as a disagreement); the product f(begin)*f(mid) is assumed not to underflow",
     "the listener objects in one `listeners` list are distinct objects (the same object listed twice never fires at its second position)",
     "sign is three-valued as in numpy.sign: a crossing through an exact zero AT a sample date yields two events (one at the sample, one 1 us later) — witnessed in Witness/C10.lean, faithful to the code",
     "the anomaly difference is modelled in fixed point (rad * 2^20) and kept inside (-pi, pi) by the stub, so `|diff - diff_prev| < pi` is an integer comparison with ceil(pi * 2^20)",
 ]
 NOT_COVERED = [
-    "closed-form node / apsis / anomaly times, umbra/penumbra vs conical shadow geometry, zero elevation at AOS/LOS and zero elevation rate at MAX: numerical, oracle only (S)",
+    "closed-form node / apsis / anomaly times, umbra/penumbra event dates vs an independent apparent-disc computation, zero elevation at AOS/LOS and zero elevation rate at MAX: numerical, oracle only (S)",
+    "LightListener: the Sun ephemeris, the frame change and the norms / dot product feeding the translated formulas (first seven assignments of __call__) are outside the model; the theorems over the reals "
+    "are tied to the float code by exact agreement of the +-1 value on sampled geometries (incl. positions within 1 mm of the real shadow boundary) only",
     "labels of NodeListener, StationSignalListener, TerminatorListener come from a derivative component independent of the watched quantity: agreement with the crossing direction is checked by the oracle only",
     "Date.range / DateRange (how the sample sequence is produced) belongs to C03/C08; the model takes the sample sequence as given",
     "NumericalPropagator: its internal interpolating Ephem is the Speaker; sharpness there is not re-evaluated by the oracle (order, soundness, completeness, labels are)",
-    "listeners created with frame=None read the state in whatever frame the state object currently has; the model gives every listener its own fixed frame, so the in-place re-framing done by "
-    "TopocentricFrame.visibility (open finding C10-visibility-prev-frame-mutated) is seen by the oracle only",
+    "a caller that itself re-frames the yielded state objects in place between two steps of a plain iter() (not visibility) changes what frame=None listeners read: outside the model (the model's states keep their frame)",
 ]
-OPEN = []
+OPEN = [
+    "penumbra clause (entries / exits agree with the conical shadow within 0.5 s) is FALSE of the current code: LightListener uses sin(alpha) = (R_sun - R_body)/d for the penumbra cone too "
+    "(light_geometry states the predicate the code computes; kernel-checked counter-witness C10W.penumbra_half_angle_witness on the formulas translated from the source; "
+    "known finding C10-penumbra-half-angle, proposed_fixes/C10-penumbra-half-angle.diff). When /repo is fixed the witness stops checking and light_geometry has to be restated with the two half-angles.",
+]
 RULE = ("correspondence: random listener lists (1-6 listeners out of 14 kinds) x random sample sequences (1 us to 100 s spacing, regular / irregular / backward, roots of the "
-        "polynomials on and off the samples) x 6 iteration modes (dates, range, Ephem dates/step/stored points) x listener history (fresh / reused / abandoned generator); "
-        "TopocentricFrame.visibility with 0-6 additional listeners given through listeners= and/or events= (True / list / single / none), with and without mask; "
-        "a case is non-trivial when at least one event is emitted (visibility: and one sample is below the horizon); plus _bisect alone (result and number of propagations). "
+        "polynomials on and off the samples) x 6 iteration modes (dates, range, Ephem dates/step/stored points) x listener history (fresh / reused / abandoned generator) "
+        "x (one listener: handed over in a list / as a bare Listener object); "
+        "node / apside / anomaly listeners with a frame of their own or created with frame=None (reading the stub state's own, settable, frame); "
+        "TopocentricFrame.visibility with 0-7 additional listeners (with / without frame) given through listeners= and/or events= (True / list / single / none), with and without mask, "
+        "plus the three kernel-checked regression witnesses of Witness/C10.lean replayed on the real method; "
+        "a case is non-trivial when at least one event is emitted (visibility: and one sample is below the horizon); plus _bisect alone (result and number of propagations); "
+        "plus LightListener.__call__ vs the translated formulas on state vectors -3..12 Earth radii behind the Earth, random and within 0 / 1 mm / 1 m / 1 km of the real umbra / penumbra boundary (exact +-1 agreement; non-trivial: in shadow); "
+        "plus the real events_iterator (0-4 labels) / find_event (label, offset -1..7) over the real stream (non-trivial: something is returned). "
         "oracle: every clause as a predicate on real orbits (see samples); tolerances from the property text")
 
 US = None  # timedelta(microseconds=1), set by _setup
@@ -485,7 +516,7 @@ def gen_step(rng, P):
     return round(rng.uniform(P / 200, P / 25), rng.choice([0, 3, 6]))
 
 
-def gen_spec(rng, mode, kind):
+def gen_spec(rng, mode, kind, big=True):
     o = gen_orbit(rng, kind)
     P = kep_period(o)
     sp = {"mode": mode, "orbit": o}
@@ -506,7 +537,8 @@ def gen_spec(rng, mode, kind):
         sp["start_s"], sp["span_s"], sp["step_s"] = 0.0, 1.2 * P, gen_step(rng, P)
     elif mode == "visibility":
         sp["listeners"], sp["station"] = [], gen_station(rng, o["kep"][2], mask=rng.random() < 0.5)
-        sp["start_s"], sp["span_s"], sp["step_s"] = 0.0, P * rng.uniform(2, 4), round(rng.uniform(30, 120), 3)
+        # (quick tier: 1.5 to 2.5 revolutions, otherwise 2 to 4 — sample size only, same checks)
+        sp["start_s"], sp["span_s"], sp["step_s"] = 0.0, P * (rng.uniform(2, 4) if big else rng.uniform(1.5, 2.5)), round(rng.uniform(30, 120), 3)
     elif mode == "geosync":
         # inclined (eccentric) geosynchronous orbit seen from a station inside its ground-track loop: always in view,
         # the elevation has maxima AND minima while in view
@@ -661,7 +693,8 @@ def check_visibility(out, orb, sta, kw, desc):
     with_user(lambda: [LS.NodeListener(frame="EME2000"), LS.ApsideListener(frame="EME2000"), LS.LightListener()],
               "visibility:user-listeners",
               "visibility with additional listeners: stream differs from (above-horizon points + their events + the station's own AOS/LOS/MAX events)", 1.5)
-    # (listeners with frame=None, "the frame is unchanged": they read the state in the orbit's own frame)
+    # (listeners with frame=None, "the frame is unchanged": they read the state in the orbit's own frame, prev included —
+    #  fixed finding C10-visibility-prev-frame-mutated, d3db55e; the family stays)
     with_user(lambda: [LS.ApsideListener()], "visibility:prev-frame-mutated",
               "visibility with an additional frame-less listener: spurious / missing events (the yielded point, still `listener.prev`, was re-framed in place)", 1.0)
     # a caller-owned listeners list, used twice
@@ -687,7 +720,7 @@ def oracle(ctx, widened):
     for mode, n, off in plan:
         for i in range(n):
             kind = "leo" if off is None else kinds[(i + off) % len(kinds)]
-            run_spec(out, gen_spec(rng, mode, kind))
+            run_spec(out, gen_spec(rng, mode, kind, big))
     out.sample({"orbit": "random LEO/MEO/GTO/Molniya Keplerian orbits; Kepler, KeplerNum, Ephem sources; 8-9 listeners at once",
                 "checked": "order, event iff sign change and guard, between samples, sign change within 5 us, label vs direction, closed-form node/apsis/anomaly times (1 ms), conical shadow (0.01 s / 0.5 s), visibility stream"})
     return out
@@ -703,13 +736,32 @@ def replay(f):
     elif isinstance(inp, dict) and inp.get("vis"):
         env = _Env.get()
         real = real_visibility(env, inp["samples"], [tuple(x) for x in inp["specs"]], tuple(inp["sta"]), inp["nl"], inp["how"],
-                               inp["has_mask"], inp["mode"], inp["history"])
+                               inp["has_mask"], inp["mode"], inp["history"], tuple(inp["own"]))
+        m = core.Driver("C10").run([inp["line"]])[0]
+        if real != m:
+            out.fail(f["family"], f["what"], inp, observed=real, expected=m)
+    elif isinstance(inp, dict) and inp.get("light"):
+        _setup()
+        from beyond.dates import Date
+        from beyond.orbits import Orbit
+        from beyond.propagators import listeners as LS
+        from beyond.env.solarsystem import get_body
+        d = Date.strptime(inp["date"].split(" ")[0], "%Y-%m-%dT%H:%M:%S") if "T" in inp["date"] else None
+        o = Orbit(list(inp["pos"]) + [0.0, 0.0, 0.0], d, "cartesian", get_body("Sun").propagate(d).frame, None)
+        real = float(LS.LightListener(inp["type"])(o))
+        line = f"c10l {1 if inp['type'] == 'penumbra' else 0} " + " ".join(core.f2b(x) for x in light_inputs(o))
+        mv = core.b2f(core.Driver("C10").run([line])[0])
+        if real != mv:
+            out.fail(f["family"], f["what"], inp, observed=real, expected=mv)
+    elif isinstance(inp, dict) and "query" in inp:
+        env = _Env.get()
+        real = real_query(env, tuple(inp["query"]), inp["samples"], [tuple(x) for x in inp["specs"]], tuple(inp["own"]))
         m = core.Driver("C10").run([inp["line"]])[0]
         if real != m:
             out.fail(f["family"], f["what"], inp, observed=real, expected=m)
     elif isinstance(inp, dict) and "line" in inp:
         env = _Env.get()
-        real = real_stream(env, inp["samples"], [tuple(x) for x in inp["specs"]], inp["mode"], inp["history"])
+        real = real_stream(env, inp["samples"], [tuple(x) for x in inp["specs"]], inp["mode"], inp["history"], tuple(inp["own"]))
         m = core.Driver("C10").run([inp["line"]])[0]
         if real != m:
             out.fail(f["family"], f["what"], inp, observed=real, expected=m)
@@ -956,6 +1008,80 @@ def translate_listeners(src):
     return out
 
 
+LIGHT_PREAMBLE = {   # the geometric inputs of LightListener.__call__, as the source must define them (replicated by `light_inputs`)
+    "sun": 'get_body("Sun")',
+    "sun_orb": "sun.propagate(orb.date).copy(frame=self.frame)",
+    "orb": 'orb.copy(form="cartesian", frame=sun_orb.frame)',
+    "x_sun": "np.array(sun_orb[:3])",
+    "norm_x_sun": "np.linalg.norm(x_sun)",
+    "x_sat": "np.array(orb[:3])",
+    "norm_x_sat": "np.linalg.norm(x_sat)",
+}
+
+
+def translate_light(path):
+    """`LightListener.__call__` from the assignment of `alpha_umb` to the end -> text of `def lightValue` (neutral in R):
+    the value as a function of the Sun / body radii, the two norms and the dot product `x_sun @ x_sat`"""
+    import ast
+    from harness import py2lean
+    tree = ast.parse(open(path).read())
+    fn = py2lean.find_function(tree, "LightListener.__call__")
+    stmts = [s for s in fn.body if not (isinstance(s, ast.Expr) and isinstance(s.value, ast.Constant))]
+    cut = next((i for i, s in enumerate(stmts) if isinstance(s, ast.Assign) and ast.unparse(s.targets[0]) == "alpha_umb"), None)
+    if cut is None:
+        raise Untranslatable("LightListener.__call__: no assignment to alpha_umb")
+    seen = {}
+    for s in stmts[:cut]:
+        if isinstance(s, ast.ImportFrom):
+            continue
+        if not (isinstance(s, ast.Assign) and len(s.targets) == 1 and isinstance(s.targets[0], ast.Name)):
+            raise Untranslatable("LightListener.__call__ preamble: " + ast.unparse(s))
+        seen[s.targets[0].id] = ast.unparse(s.value)
+    want = {k: ast.unparse(ast.parse(v, mode="eval").body) for k, v in LIGHT_PREAMBLE.items()}
+    if seen != want:
+        raise Untranslatable(f"LightListener.__call__ preamble changed: {seen}")
+
+    class Dot(ast.NodeTransformer):
+        def visit_BinOp(self, n):
+            self.generic_visit(n)
+            if isinstance(n.op, ast.MatMult):
+                if sorted([ast.unparse(n.left), ast.unparse(n.right)]) == ["x_sat", "x_sun"]:
+                    return ast.Name(id="dot_sun_sat")
+                if sorted([ast.unparse(n.left), ast.unparse(n.right)]) == ["-x_sun", "x_sat"]:
+                    return ast.UnaryOp(op=ast.USub(), operand=ast.Name(id="dot_sun_sat"))
+                raise Untranslatable("matmul " + ast.unparse(n))
+            return n
+    tr = py2lean.Tr(consts={"sun.r": "rsun", "orb.frame.center.body.r": "rbody"})
+
+    def test(e):
+        src = ast.unparse(e)
+        if src == "self.type == self.PENUMBRA":
+            return "penumbra"
+        if src == "self.type == self.UMBRA":
+            return "(!penumbra)"
+        return tr.expr(e)
+
+    def go(ss, cont):
+        if not ss:
+            return cont
+        s, rest = ss[0], ss[1:]
+        if isinstance(s, ast.Assign) and len(s.targets) == 1 and isinstance(s.targets[0], ast.Name):
+            return f"let {py2lean.lname(s.targets[0].id)} : R := {tr.expr(s.value)}\n" + go(rest, cont)
+        if isinstance(s, ast.If):
+            k = go(rest, cont)
+            return f"(if {test(s.test)} then\n{py2lean.indent(go(s.body, k))}\nelse\n{py2lean.indent(go(s.orelse, k))})"
+        if isinstance(s, ast.Return) and s.value is not None:
+            return tr.expr(s.value)
+        raise Untranslatable("LightListener.__call__: " + ast.unparse(s))
+    body = [Dot().visit(s) for s in stmts[cut:]]
+    if not isinstance(body[-1], ast.Return):
+        raise Untranslatable("LightListener.__call__ does not end with a return")
+    text = go(body[:-1], tr.expr(body[-1].value))
+    return ("/-- `LightListener.__call__` after the geometric inputs: `rsun`, `rbody` radii of the Sun and of the central body,\n"
+            "`norm_x_sun`, `norm_x_sat` norms of the Sun and satellite positions, `dot_sun_sat = x_sun @ x_sat`; `penumbra`: `self.type == self.PENUMBRA` -/\n"
+            "def lightValue (penumbra : Bool) (rsun rbody norm_x_sun norm_x_sat dot_sun_sat : R) : R :=\n" + py2lean.indent(text) + "\n")
+
+
 def anomaly_labels():
     """label prefix per anomaly key, by calling the real `info` on a stub"""
     _setup()
@@ -981,7 +1107,10 @@ def extract(ctx):
     out.append("")
     out.append("end BeyondVerif.Generated.ListenSrc")
     ch = core.write_if_changed(os.path.join(core.LEAN, "BeyondVerif", "Generated", "ListenSrc.lean"), "\n".join(out) + "\n")
-    return ["Generated/ListenSrc.lean"] if ch else []
+    from harness import py2lean
+    lpath = os.path.join(core.REPO, "beyond", "propagators", "listeners.py")
+    ch2 = py2lean.instantiate(core.LEAN, "LightSrc", translate_light(lpath), "beyond/propagators/listeners.py (LightListener.__call__)")
+    return (["Generated/ListenSrc.lean"] if ch else []) + ch2
 
 
 # =====================================================================================
@@ -991,6 +1120,8 @@ def extract(ctx):
 # =====================================================================================
 
 ANOM_UNIT = 1 << 20
+OWN = "own-frame"     # key of `chans` holding the Key of the frame the stub states are produced in
+FRAMELESS = ("node", "apside", "anomaly:true", "anomaly:mean", "anomaly:eccentric", "anomaly:aol")   # classes whose `frame` defaults to None
 KINDS = ["node", "apside", "signal", "mask", "max", "radvel0", "radvel1", "umbra", "penumbra", "terminator",
          "anomaly:true", "anomaly:mean", "anomaly:eccentric", "anomaly:aol"]
 
@@ -1022,16 +1153,16 @@ class _Env:
         self.LS = LS
         self.Date = Date
         self.EPOCH = Date(2020, 1, 1)
-        self.ambiguous = False
 
         def us(date):
             return (date - env.EPOCH) // US
         self.us = us
 
         class View:
-            """`orb.copy(frame=key, form=…)`: the components the listeners read"""
-            def __init__(self, t, ch):
-                self.t, self.ch = t, ch
+            """`orb.copy(frame=key, form=…)`: a new state object in the given frame — the components the listeners read,
+            plus what a copy of a real state vector carries over (date, `event`)"""
+            def __init__(self, t, ch, date=None, event=None):
+                self.t, self.ch, self.date, self.event = t, ch, date, event
             phi = property(lambda s: evalpoly(s.ch[0], s.t))
             phi_dot = property(lambda s: evalpoly(s.ch[1], s.t))
             r_dot = property(lambda s: evalpoly(s.ch[2], s.t))
@@ -1046,22 +1177,26 @@ class _Env:
             setattr(View, a, property(View._anom))
 
         class StubOrb:
-            def __init__(self, date, chans):
+            """what the stub propagator / ephemeris yields: a state object with a (settable) `frame` of its own — the key
+            `chans[OWN]` — in which the `frame=None` listeners read it"""
+            def __init__(self, date, chans, frame=None):
                 self.date, self.chans, self.event = date, chans, None
                 self.t = us(date)
-                self.frame = self.form = None
+                self.frame = chans[OWN] if frame is None else frame
+                self.form = "cartesian"
 
             @property
             def phi(self):
-                # what TopocentricFrame.visibility reads after `point.frame = station; point.form = "spherical"`
+                # (read by a `visibility` that re-frames the point itself: `point.frame = station; point.form = "spherical"`)
                 return evalpoly(self.chans[self.frame][0], self.t)
 
             def copy(self, *, frame=None, form=None, same=None):
+                # StateVector.copy: a new object; `frame` / `form` None keep those of the original
                 if frame is None and form is None:
-                    o = StubOrb(self.date, self.chans)
+                    o = StubOrb(self.date, self.chans, self.frame)
                     o.event = self.event
                     return o
-                return View(self.t, self.chans[frame])
+                return View(self.t, self.chans[self.frame if frame is None else frame], self.date, self.event)
 
         class Key:
             """stands for a frame or a station"""
@@ -1108,19 +1243,28 @@ class _Env:
         from datetime import timedelta
         return self.EPOCH + timedelta(microseconds=t)
 
-    def build(self, specs):
-        """specs: list of (kind, A, B, C, D, elev) -> (listeners, chans)"""
+    def build(self, specs, own):
+        """specs: list of (kind, A, B, C, D, elev), kind + "@" for a listener created with frame=None (A–D empty);
+        own: (A, B, C, D) components of the states in their own frame  ->  (listeners, chans)"""
         LS = self.LS
         chans = {}
+        okey = self.Key(tuple(own) + (0,))
+        chans[okey] = okey.entry
+        chans[OWN] = okey
         Ls = []
         for kind, A, B, C, D, E in specs:
-            entry = (A, B, C, D, E)
-            key = self.Key(entry)
-            chans[key] = entry
+            if kind.endswith("@"):
+                kind, key = kind[:-1], None
+                if kind not in FRAMELESS:
+                    raise ValueError(kind)
+            else:
+                entry = (A, B, C, D, E)
+                key = self.Key(entry)
+                chans[key] = entry
             if kind == "node":
-                L = LS.NodeListener(frame=key)
+                L = LS.NodeListener(frame=key) if key else LS.NodeListener()
             elif kind == "apside":
-                L = LS.ApsideListener(frame=key)
+                L = LS.ApsideListener(frame=key) if key else LS.ApsideListener()
             elif kind == "signal":
                 L = LS.StationSignalListener(key, elev=E)
             elif kind == "mask":
@@ -1134,7 +1278,7 @@ class _Env:
             elif kind == "terminator":
                 L = self.StubTerminator(key)
             elif kind.startswith("anomaly:"):
-                L = LS.AnomalyListener(0.0, kind.split(":")[1], frame=key)
+                L = LS.AnomalyListener(0.0, kind.split(":")[1], frame=key) if key else LS.AnomalyListener(0.0, kind.split(":")[1])
             else:
                 raise ValueError(kind)
             Ls.append(L)
@@ -1206,6 +1350,7 @@ def gen_case(rng):
     ts, skind = gen_samples(rng)
     lo, hi = min(ts), max(ts)
     specs = []
+    own_anom = None
     for _ in range(rng.choice([1, 1, 2, 2, 3, 4, 6])):
         kind = rng.choice(KINDS)
         if kind.startswith("anomaly"):
@@ -1220,7 +1365,20 @@ def gen_case(rng):
         C = gen_poly(rng, lo, hi, ts, 2)
         D = gen_poly(rng, lo, hi, ts, 1)
         E = rng.choice([0, 0, 1, -2, 1000])
+        if kind in FRAMELESS and rng.random() < 0.4:
+            # created with frame=None: reads the states in their own frame
+            if kind.startswith("anomaly"):
+                if own_anom is None:
+                    own_anom = A
+                    specs.append((kind + "@", [], [], [], [], 0))
+                    continue
+            else:
+                specs.append((kind + "@", [], [], [], [], 0))
+                continue
         specs.append((kind, A, B, C, D, E))
+    # the states' own frame: latitude (or, when a frame-less anomaly listener is present, the anomaly in fixed point),
+    # its rate, radial velocity, (mask: unused)
+    own = (own_anom if own_anom is not None else gen_poly(rng, lo, hi, ts), gen_poly(rng, lo, hi, ts, 2), gen_poly(rng, lo, hi, ts, 2), [0])
     mode = rng.choice(["dates", "dates", "range", "ephem-dates", "ephem-step", "ephem-nostep"])
     steps = {ts[i + 1] - ts[i] for i in range(len(ts) - 1)}
     if mode in ("range", "ephem-step") and (len(steps) != 1 or (mode == "ephem-step" and ts[1] < ts[0])):
@@ -1228,17 +1386,26 @@ def gen_case(rng):
     if mode == "ephem-nostep" and ts[1] < ts[0]:
         mode = "ephem-dates"
     history = rng.choice(["fresh", "fresh", "reuse", "abandoned"])
-    return ts, skind, specs, mode, history
+    if len(specs) == 1 and rng.random() < 0.5:
+        history += "+single"      # the one listener is handed over as an object, not in a list (`isinstance(listeners, Listener)`)
+    return ts, skind, specs, mode, history, own
 
 
-def case_line(ts, specs):
-    p = lambda cs: ",".join(str(c) for c in cs)
-    return "c10 " + p(ts) + " " + " ".join(f"{k} {p(A)} {p(B)} {p(C)} {p(D)} {E}" for k, A, B, C, D, E in specs)
+def _p(cs):
+    return ",".join(str(c) for c in cs) or "-"
 
 
-def real_stream(env, ts, specs, mode, history):
+def _specs_txt(specs):
+    return " ".join(f"{k} {_p(A)} {_p(B)} {_p(C)} {_p(D)} {E}" for k, A, B, C, D, E in specs)
+
+
+def case_line(ts, specs, own):
+    return (f"c10 {_p(ts)} {_p(own[0])} {_p(own[1])} {_p(own[2])} {_p(own[3])} " + _specs_txt(specs)).rstrip()
+
+
+def real_stream(env, ts, specs, mode, history, own):
     from datetime import timedelta
-    Ls, chans = env.build(specs)
+    Ls, chans = env.build(specs, own)
     dates = [env.date(t) for t in ts]
     if mode.startswith("ephem"):
         # stored points: the samples themselves (nostep) or a coarser grid around them
@@ -1250,16 +1417,20 @@ def real_stream(env, ts, specs, mode, history):
     else:
         src = env.StubProp(chans)
 
+    single = history.endswith("+single")
+    history = history.split("+")[0]
+    arg = Ls[0] if single else Ls
+
     def run(ts_, dates_):
         if mode in ("dates", "ephem-dates"):
-            return src.iter(dates=list(dates_), listeners=Ls)
+            return src.iter(dates=list(dates_), listeners=arg)
         step = timedelta(microseconds=ts_[1] - ts_[0])
         if mode == "range":
-            return src.iter(start=dates_[0], stop=dates_[-1], step=step, listeners=Ls)
+            return src.iter(start=dates_[0], stop=dates_[-1], step=step, listeners=arg)
         if mode == "ephem-step":
-            return src.iter(start=dates_[0], stop=dates_[-1], step=step, listeners=Ls)
+            return src.iter(start=dates_[0], stop=dates_[-1], step=step, listeners=arg)
         if mode == "ephem-nostep":
-            return src.iter(start=dates_[0], stop=dates_[-1], listeners=Ls)
+            return src.iter(start=dates_[0], stop=dates_[-1], listeners=arg)
         raise ValueError(mode)
     if history == "reuse":
         list(run(ts, dates))
@@ -1270,15 +1441,115 @@ def real_stream(env, ts, specs, mode, history):
     return env.signature(list(run(ts, dates)), Ls)
 
 
+def light_inputs(orb, frame=None):
+    """the geometric inputs of LightListener.__call__, computed as its first lines do (`LIGHT_PREAMBLE`, checked against the
+    source by `translate_light`): (rsun, rbody, |x_sun|, |x_sat|, x_sun @ x_sat)"""
+    import numpy as np
+    from beyond.env.solarsystem import get_body
+    sun = get_body("Sun")
+    sun_orb = sun.propagate(orb.date).copy(frame=frame)
+    orb = orb.copy(form="cartesian", frame=sun_orb.frame)
+    x_sun = np.array(sun_orb[:3])
+    x_sat = np.array(orb[:3])
+    return float(sun.r), float(orb.frame.center.body.r), float(np.linalg.norm(x_sun)), float(np.linalg.norm(x_sat)), float(x_sun @ x_sat)
+
+
+def gen_light_states(rng, n):
+    """state vectors around the Earth's shadow: random positions, and positions next to the umbra / penumbra boundary of the
+    REAL listener (found by bisection on the distance to the shadow axis), from 0.05 to 12 Earth radii behind the Earth"""
+    import numpy as np
+    from beyond.dates import Date
+    from beyond.orbits import Orbit
+    from beyond.env.solarsystem import get_body
+    from beyond.propagators import listeners as LS
+    sun = get_body("Sun")
+    Re = 6378136.3
+    res = []
+    while len(res) < n:
+        date = Date(2015 + rng.randrange(10), rng.randint(1, 12), rng.randint(1, 28), rng.randrange(24), rng.randrange(60), rng.randrange(60))
+        so = sun.propagate(date)
+        u = -np.array(so[:3], dtype=float)
+        u /= np.linalg.norm(u)
+        a = np.cross(u, [rng.gauss(0, 1), rng.gauss(0, 1), rng.gauss(0, 1)])
+        a /= np.linalg.norm(a)
+
+        def state(along, perp):
+            return Orbit(list(along * u + perp * a) + [0.0, 0.0, 0.0], date, "cartesian", so.frame, None)
+        r = rng.random()
+        typ = rng.choice(["umbra", "penumbra"])
+        if r < 0.35:
+            along = Re * rng.uniform(-3, 12)
+            perp = Re * rng.uniform(0, 1.6)
+            how = "random"
+        else:
+            along = Re * math.exp(rng.uniform(math.log(0.05), math.log(12)))
+            L = LS.LightListener(typ)
+            lo, hi = 0.0, 1.3 * Re     # value -1 on the axis (behind the Earth), +1 far from it
+            if L(state(along, lo)) > 0 or L(state(along, hi)) < 0:
+                continue
+            for _ in range(36):
+                mid = 0.5 * (lo + hi)
+                if L(state(along, mid)) < 0:
+                    lo = mid
+                else:
+                    hi = mid
+            perp = max(0.0, lo + rng.choice([-1, 1]) * rng.choice([0.0, 1e-3, 1.0, 1e3]))
+            how = "boundary"
+        res.append((state(along, perp), typ, how))
+    return res
+
+
+KIND_LABELS = {"node": ["Asc Node", "Desc Node"], "apside": ["Periapsis", "Apoapsis"], "signal": ["AOS", "LOS"], "mask": ["AOS", "LOS"], "max": ["MAX"],
+               "radvel0": ["Radial Velocity"], "radvel1": ["Radial Velocity"], "umbra": ["Umbra entry", "Umbra exit"],
+               "penumbra": ["Penumbra entry", "Penumbra exit"], "terminator": ["Day Terminator", "Night Terminator"]}
+
+
+def gen_query(rng, specs):
+    """a consumer of the stream: ("events", [labels]) for events_iterator, ("find", label, offset) for find_event"""
+    labs = sorted({l for k, *_ in specs for l in KIND_LABELS.get(k.rstrip("@"), [])}) or ["AOS"]
+    if rng.random() < 0.4:
+        r = rng.random()
+        chosen = [] if r < 0.3 else rng.sample(labs, min(len(labs), rng.randint(1, 3)))
+        if r > 0.8:
+            chosen.append("No Such Event")
+        return ("events", chosen)
+    return ("find", rng.choice(labs + ["MAX"]), rng.choice([0, 0, 0, 1, 1, 2, 3, 7, -1]))
+
+
+def query_line(q, ts, specs, own):
+    tail = case_line(ts, specs, own)[len("c10 "):]
+    if q[0] == "events":
+        return "c10e " + (",".join(l.replace(" ", "_") for l in q[1]) or "-") + " " + tail
+    return f"c10f {q[1].replace(' ', '_')} {q[2]} " + tail
+
+
+def real_query(env, q, ts, specs, own):
+    """the REAL events_iterator / find_event over the real iter() of the stub propagator"""
+    LS = env.LS
+    Ls, chans = env.build(specs, own)
+    it = env.StubProp(chans).iter(dates=[env.date(t) for t in ts], listeners=Ls)
+    if q[0] == "events":
+        return env.signature(list(LS.events_iterator(it, *q[1])), Ls)
+    try:
+        return env.signature([LS.find_event(it, q[1], q[2])], Ls)
+    except RuntimeError:
+        return "runtime-error"
+
+
 def gen_vis_case(rng):
     """TopocentricFrame.visibility through the stubs: station components, the caller's listeners (via listeners= and/or
     events=), events flag, mask or not"""
-    ts, skind, specs, _, history = gen_case(rng)
+    ts, skind, specs, _, history, own = gen_case(rng)
+    history = history.split("+")[0]
     lo, hi = min(ts), max(ts)
     sta = (gen_poly(rng, lo, hi, ts), gen_poly(rng, lo, hi, ts, 2), gen_poly(rng, lo, hi, ts, 2), gen_poly(rng, lo, hi, ts, 1), 0)
     r = rng.random()
     if r < 0.15:
         specs = []
+    elif r < 0.35 and not any(k.startswith("anomaly") for k, *_ in specs):
+        # one more frame-less listener: the case the in-place re-framing of the yielded points used to break
+        specs = specs + [(rng.choice(["node@", "apside@"]), [], [], [], [], 0)]
+        rng.shuffle(specs)
     nl = rng.randint(0, len(specs))        # the first nl through listeners=, the others through events=
     how = rng.choice(["true", "list", "list", "single", "none"])
     if how == "list" and nl == len(specs):
@@ -1294,21 +1565,21 @@ def gen_vis_case(rng):
     mode = rng.choice(["dates", "dates", "range"])
     if mode == "range" and len({ts[i + 1] - ts[i] for i in range(len(ts) - 1)}) != 1:
         mode = "dates"
-    return ts, skind, specs, sta, nl, how, has_mask, mode, history
+    return ts, skind, specs, sta, nl, how, has_mask, mode, history, own
 
 
-def vis_line(ts, specs, sta, how, has_mask):
-    p = lambda cs: ",".join(str(c) for c in cs)
-    return (f"c10v {0 if how == 'none' else 1} {1 if has_mask else 0} {p(ts)} {p(sta[0])} {p(sta[1])} {p(sta[2])} {p(sta[3])} "
-            + " ".join(f"{k} {p(A)} {p(B)} {p(C)} {p(D)} {E}" for k, A, B, C, D, E in specs)).rstrip()
+def vis_line(ts, specs, sta, how, has_mask, own):
+    p = _p
+    return (f"c10v {0 if how == 'none' else 1} {1 if has_mask else 0} {p(ts)} {p(own[0])} {p(own[1])} {p(own[2])} {p(own[3])} "
+            f"{p(sta[0])} {p(sta[1])} {p(sta[2])} {p(sta[3])} " + _specs_txt(specs)).rstrip()
 
 
-def real_visibility(env, ts, specs, sta, nl, how, has_mask, mode, history):
+def real_visibility(env, ts, specs, sta, nl, how, has_mask, mode, history, own):
     """the REAL TopocentricFrame.visibility (called unbound on a stub station) over the stub propagator"""
     from datetime import timedelta
     from beyond.frames.stations import TopocentricFrame
     LS = env.LS
-    Ls, chans = env.build(specs)
+    Ls, chans = env.build(specs, own)
     station = env.Key(sta, mask=True if has_mask else None)
     chans[station] = sta
     src = env.StubProp(chans)
@@ -1355,63 +1626,110 @@ def real_visibility(env, ts, specs, sta, nl, how, has_mask, mode, history):
     return ";".join(sig)
 
 
+# the kernel-checked regression witnesses of Witness/C10.lean (`visibility_frameless_*`), replayed on the implementation:
+# (samples, user listeners, station components, own components, expected stream)
+_WITNESS_VIS = [
+    # range rate in the states' own frame constant +5 (no apsis), topocentric range rate -5, in view all along:
+    # no event at all (before d3db55e: a "Periapsis" 1 us after every sample)
+    ([0, 1000, 2000], [("apside@", [], [], [], [], 0)], ([1], [0], [-5], [0], 0), ([0], [0], [5], [0]),
+     "0/-;1000/-;2000/-"),
+    # own radial velocity t - 500: one genuine periapsis at 500 us, found although the topocentric range rate is negative
+    ([0, 1000], [("apside@", [], [], [], [], 0)], ([1], [0], [-5], [0], 0), ([0], [0], [-500, 1], [0]),
+     "0/-;500/0/Periapsis;1000/-"),
+    # latitude in the own frame t - 1500 (ascending node at 1500 us), elevation 7 - t/1000 ... here 2500 - t: the node is
+    # found in view; the station's own AOS/LOS listener sees the LOS at 2500
+    ([0, 1000, 2000, 3000], [("node@", [], [], [], [], 0)], ([2500, -1], [-1], [0], [0], 0), ([-1500, 1], [1], [0], [0]),
+     "0/-;1000/-;1500/0/Asc Node;2000/-;2500/1/LOS"),
+]
+
+
 def correspondence(ctx):
     out = Outcome()
     env = _Env.get()
     rng = ctx.rng
     # ---- TopocentricFrame.visibility
-    vcases = [gen_vis_case(rng) for _ in range(ctx.n(1200, 40000))]
-    vlines = [vis_line(c[0], c[2], c[3], c[5], c[6]) for c in vcases]
+    vcases = [(ts, "witness", specs, sta, len(specs), "true", False, "dates", "fresh", own) for ts, specs, sta, own, _ in _WITNESS_VIS]
+    vcases += [gen_vis_case(rng) for _ in range(ctx.n(1000, 40000))]
+    vlines = [vis_line(c[0], c[2], c[3], c[5], c[6], c[9]) for c in vcases]
     vmodel = core.Driver("C10").run(vlines)
+    for w, m in zip(_WITNESS_VIS, vmodel):
+        if m != w[4]:
+            out.fail("visibility-witness", "compiled model disagrees with the kernel-checked witness of Witness/C10.lean", {"line": vlines[_WITNESS_VIS.index(w)]},
+                     observed=m, expected=w[4])
     for c, line, m in zip(vcases, vlines, vmodel):
-        ts, skind, specs, sta, nl, how, has_mask, mode, history = c
+        ts, skind, specs, sta, nl, how, has_mask, mode, history, own = c
         try:
             real = real_visibility(env, *c[:1], *c[2:])
         except Exception as e:
             real = f"raised {type(e).__name__}: {e}"
         nev = sum(1 for it in m.split(";") if it and not it.endswith("/-"))
         below = sum(1 for t in ts if evalpoly(sta[0], t) < 0)
-        out.count(key=("vis", tuple(ts), tuple((s[0], tuple(s[1])) for s in specs), tuple(sta[0]), how, has_mask, mode, history),
-                  nontrivial=nev > 0 and below > 0, vis_events=how, vis_mode=mode, vis_user=min(len(specs), 4))
+        nfl = sum(1 for sp in specs if sp[0].endswith("@"))
+        out.count(key=("vis", tuple(ts), tuple((s[0], tuple(s[1])) for s in specs), tuple(sta[0]), tuple(own[2]), how, has_mask, mode, history),
+                  nontrivial=nev > 0 and (below > 0 or skind == "witness"), vis_events=how, vis_mode=mode, vis_user=min(len(specs), 4), vis_frameless=min(nfl, 2))
         if real != m:
             out.fail("visibility-stream", "stream of TopocentricFrame.visibility differs between the model and the real method",
                      {"vis": True, "samples": ts, "specs": specs, "sta": sta, "nl": nl, "how": how, "has_mask": has_mask, "mode": mode,
-                      "history": history, "line": line}, observed=real, expected=m)
+                      "history": history, "own": own, "line": line}, observed=real, expected=m)
         out.sample({"line": line[:200], "reply": m[:200]}, limit=1)
     cases = []
-    for _ in range(ctx.n(2500, 100000)):
+    for _ in range(ctx.n(2000, 100000)):
         cases.append(gen_case(rng))
-    lines = [case_line(ts, specs) for ts, _, specs, _, _ in cases]
+    lines = [case_line(c[0], c[2], c[5]) for c in cases]
     # _bisect alone, on the real Speaker
     bis = []
-    for _ in range(ctx.n(1000, 30000)):
+    for _ in range(ctx.n(600, 30000)):
         b = rng.randrange(10**9)
         d = rng.choice([0, 1, -1, 2, -2, 3, -3, 5, 6, 7, -7, 1000, -999, 10**6 + 1, rng.randint(-10**8, 10**8)])
         P = gen_poly(rng, min(b, b + d), max(b, b + d), [b, b + d])
         bis.append((b, b + d, P))
         lines.append(f"c10b {b} {b + d} " + ",".join(map(str, P)))
     model = core.Driver("C10").run(lines)
-    for (ts, skind, specs, mode, history), m in zip(cases, model[:len(cases)]):
-        env.ambiguous = False
+    for (ts, skind, specs, mode, history, own), line, m in zip(cases, lines, model[:len(cases)]):
         try:
-            real = real_stream(env, ts, specs, mode, history)
+            real = real_stream(env, ts, specs, mode, history, own)
         except Exception as e:   # the model never raises: a raising implementation is a disagreement
             real = f"raised {type(e).__name__}: {e}"
-        if env.ambiguous:
-            out.tally("skipped=anomaly-guard-on-float-boundary")
-            continue
-        nev = m.count("/") - m.count("/-") - (m.count("/") - m.count("/-")) // 2 if False else sum(1 for it in m.split(";") if not it.endswith("/-"))
-        out.count(key=(tuple(ts), tuple((s[0], tuple(s[1])) for s in specs), mode, history), nontrivial=nev > 0,
+        nev = sum(1 for it in m.split(";") if not it.endswith("/-"))
+        out.count(key=(tuple(ts), tuple((s[0], tuple(s[1])) for s in specs), tuple(own[0]), tuple(own[2]), mode, history), nontrivial=nev > 0,
                   samples=skind, mode=mode, history=history, listeners=len(specs), events=min(nev, 6))
         for s in specs:
             out.tally("kind=" + s[0])
         if real != m:
             out.fail("listen-stream", "output stream (dates, listener, labels, order) differs between Model/Listen.lean and the real Speaker/iter",
-                     {"samples": ts, "specs": specs, "mode": mode, "history": history, "line": case_line(ts, specs)}, observed=real, expected=m)
-        out.sample({"line": case_line(ts, specs)[:200], "reply": m[:200]}, limit=3)
-    L1 = env.build([("umbra", [0], [0], [0], [0], 0)])
+                     {"samples": ts, "specs": specs, "mode": mode, "history": history, "own": own, "line": line}, observed=real, expected=m)
+        out.sample({"line": line[:200], "reply": m[:200]}, limit=3)
+    # ---- events_iterator / find_event on the real stream
+    qcases = []
+    for _ in range(ctx.n(500, 20000)):
+        c = gen_case(rng)
+        qcases.append((gen_query(rng, c[2]), c[0], c[2], c[5]))
+    qlines = [query_line(*qc) for qc in qcases]
+    for (q, ts, specs, own), line, m in zip(qcases, qlines, core.Driver("C10").run(qlines)):
+        try:
+            real = real_query(env, q, ts, specs, own)
+        except Exception as e:
+            real = f"raised {type(e).__name__}: {e}"
+        out.count(key=("query", line), nontrivial=m not in ("", "runtime-error"), kind="find_event" if q[0] == "find" else "events_iterator",
+                  query=("find:found" if m != "runtime-error" else "find:runtime-error") if q[0] == "find" else f"events:{min(len(q[1]), 3)}-labels")
+        if real != m:
+            out.fail("events-query", "events_iterator / find_event over the real stream differs from the model", {"query": list(q), "samples": ts, "specs": specs, "own": own, "line": line},
+                     observed=real, expected=m)
+    # ---- LightListener.__call__ as a function of the geometry (formulas translated from the source: Generated/LightSrc)
+    lstates = gen_light_states(rng, ctx.n(150, 3000))
+    linp = [light_inputs(o) for o, _, _ in lstates]
+    llines = [f"c10l {1 if typ == 'penumbra' else 0} " + " ".join(core.f2b(x) for x in inp) for (o, typ, how), inp in zip(lstates, linp)]
+    for (o, typ, how), inp, line, m in zip(lstates, linp, llines, core.Driver("C10").run(llines)):
+        real = float(env.LS.LightListener(typ)(o))
+        mv = core.b2f(m) if m != "bad-op" else None
+        out.count(key=("light", line), nontrivial=real < 0, kind="light-value", light=f"{typ}:{how}:{'shadow' if real < 0 else 'lit'}")
+        if mv != real:
+            out.fail("light-value", "LightListener.__call__ differs from the formulas translated from its source (Generated/LightSrc)",
+                     {"light": True, "type": typ, "date": str(o.date), "pos": [float(x) for x in o[:3]], "frame": str(o.frame), "inputs": list(inp), "line": line},
+                     observed=real, expected=mv)
+    own0 = ([0], [0], [0], [0])
     for (b, e, P), m in zip(bis, model[len(cases):]):
-        Ls, chans = env.build([("umbra", P, [0], [0], [0], 0)])
+        Ls, chans = env.build([("umbra", P, [0], [0], [0], 0)], own0)
         sp = env.StubProp(chans)
         ob, oe = env.StubOrb(env.date(b), chans), env.StubOrb(env.date(e), chans)
         r = sp._bisect(ob, oe, Ls[0])
